@@ -2,22 +2,25 @@ from engine import Query
 META = {
  'functions': ['Value<char>::GroupBy (Value.hpp:1849-1912) on the real Value / HArray<String,Value> / Array<Value>, with operator[], operator+=, GetValue, GetKey, SetCharAndLength, CopyValueTo'],
  'bounds': 'arrays of 2 (quick) / 3 (thorough) objects built through the public API, each with the grouping key and one other member in every order (member order concrete per query, all 2^n combinations), '
-           'grouping-key values symbolic: one-unit strings over all code units, booleans, null/string mixes, one-digit numbers; other members symbolic 64-bit numbers',
+           'grouping-key values from a concrete pattern per query covering every set partition of the objects into groups, as one-unit strings, booleans, null/string mixes and one-digit numbers; other members symbolic 64-bit numbers (the solver decides over those). A symbolic key text makes the hash-table shape symbolic and gives no verdict in 300 s',
  'outside': 'more than 3 input objects, more than 2 members per object, nested member values, objects with removed members, the <loop group=...> attribute (template renderer)',
- 'assumptions': [],
+ 'assumptions': ['Digit::stringToNumber is replaced by a stub that asserts it is never reached (no string->number coercion is part of grouping)'],
 }
 def queries(tier):
     qs = []
     n_list = (2,) if tier == 'quick' else (2, 3)
+    B = {'Dispose': 5, 'Copy': 12, 'Hash': 3, 'IsEqual': 6, 'find': 4, 'resize|generateHash|expand': 6, 'vf_mem.*': 120, 'Count': 3, 'SetToZero': 20,
+         'h_group|same_text|key_text': 8, 'GroupBy': 4, 'copyTable|copyArray|operator=.*|operator\\+=': 4, 'IntToString|NumberToString': 4, 'Write|write': 8}
     for n in n_list:
+        pats = [0, 3] if n == 2 else [0, 3, 9, 12, 21]      # set partitions of the objects into groups (group id of object i = base-3 digit i)
         for ordm in range(1 << n):
-            for kind in (0, 1, 2, 3):
-                if tier == 'quick' and kind in (2,) and ordm not in (0, 1): continue
-                b = {'Dispose': n + 2, 'Copy': 12, 'Hash': 3, 'IsEqual': 6, 'find': 4, 'resize|generateHash|expand': 6, 'vf_mem.*': 120, 'Count': 3, 'SetToZero': 20,
-                     'h_group|same_text|key_text': 8, 'GroupBy': 4, 'copyTable|copyArray|operator=.*|operator\\+=': 4, 'IntToString|NumberToString': 4, 'Write|write': 8}
-                qs.append(Query('group/n%d/ord%d/kind%d' % (n, ordm, kind), 'C18_groupby.cpp', 'h_group', {'NOBJ': n, 'ORD': ordm, 'KIND': kind}, bounds=b, default_unwind=4,
-                                default_rec=2, rec_bounds={'~Value|copyValue': 3}, timeout=900, mem_gb=12, kf_excl=['C18-key-position']))
-    # the finding restricted to its predicate (key not at the position found in the first object)
-    qs.append(Query('group/kf/key-position', 'C18_groupby.cpp', 'h_group', {'NOBJ': 2, 'ORD': 2, 'KIND': 0}, bounds={'Dispose': 4, 'Copy': 12, 'Hash': 3, 'IsEqual': 6, 'find': 4, 'resize|generateHash|expand': 6, 'vf_mem.*': 120, 'Count': 3, 'SetToZero': 20,
-                     'h_group|same_text|key_text': 8, 'GroupBy': 4, 'copyTable|copyArray|operator=.*|operator\\+=': 4, 'Write|write': 8}, default_unwind=4, default_rec=2, rec_bounds={'~Value|copyValue': 3}, timeout=900, kf_only='C18-key-position'))
+            for pat in pats:
+                for kind in (0, 1, 2, 3):
+                    if kind == 1 and pat == 21: continue     # booleans have two distinct values only
+                    if tier == 'quick' and kind in (1, 2) and ordm not in (0, 2): continue
+                    first_has_key_first = (ordm & 1) == 0
+                    differs = any(((ordm >> i) & 1) != (ordm & 1) for i in range(n))
+                    qs.append(Query('group/n%d/ord%d/pat%d/kind%d' % (n, ordm, pat, kind), 'C18_groupby.cpp', 'h_group', {'NOBJ': n, 'ORD': ordm, 'PAT': pat, 'KIND': kind},
+                                    bounds=B, default_unwind=4, default_rec=3, rec_bounds={'~Value|copyValue': 4}, timeout=900, mem_gb=12,
+                                    stubs={'_ZN6Qentem5Digit14stringToNumberIcEENS_11QNumberTypeERNS_9QNumber64EPKT_Rjj': 'stub_no_strtonum'}))
     return qs
